@@ -11,7 +11,7 @@ ID = "C10"
 RULE = ("Families of weight vectors over the same 12-40 real unit ids (str/int), built as chains ordered by prefix shares: "
         "two-group ramps (1%..99%), and vectors obtained by moving weight from a later to an earlier group (exact integer "
         "arithmetic); each vector is evaluated (a) as its own program with its own labels and (b) as one branch of a single "
-        "program selected by a condition field, plus (c) the public choice function called directly with int and float weight lists. Oracles: (i) monotone coupling - along the chain no unit moves to a "
+        "program selected by a condition field, plus (c) the public choice function called directly with int and float weight lists and with cum_weights, (d) one long-lived evaluator recompile()d through the whole family (labels that look like URLs). Oracles: (i) monotone coupling - along the chain no unit moves to a "
         "later-declared group; (ii) for each unit the position intervals [P_(g-1), P_g) implied by every observed (vector, "
         "group) - across programs, labels and branches - have a non-empty intersection (widened by 1e-12). No reference hash "
         "is used. A second part locates a unit's grid point black-box (two-group ramps through the DSL) and evaluates a ramp in steps of 1e-7 of the hash space that straddles it (weights with 8-10 significant digits). Non-trivial = case in which at least one unit changes group along the family; distinct by (units, family, salt).")
@@ -122,6 +122,27 @@ def judge(case):
     if res[0] != "ok":
         return {"viol": ["does not compile: %s %s" % res[1:]], "tags": tags}
     routed = res[1]
+    # (d) one long-lived evaluator pushed through the whole family by recompile(), labels that look like URLs ("//" inside a
+    # string) - it must agree with the stand-alone programs at every step
+    live = None
+    live_idx = {}
+    for vi, ws in enumerate(fam):
+        text = M.render(M.program("live", M.ret([(M.lit_str("https://cdn.example/g%d.js" % gi), w) for gi, w in enumerate(ws)]),
+                                  salt=salt, splitters=["uid"]))
+        try:
+            if live is None:
+                live = sut.evaluator_mod().ExperimentEvaluator(text)
+            else:
+                live.recompile(text)
+        except Exception as e:
+            viol.append("live evaluator: recompile to %r raised %s: %s" % (ws, type(e).__name__, e))
+            break
+        for u in units[:16]:
+            a = sut.call(live, {"uid": u})
+            if a[0] == "group" and isinstance(a[1], str) and a[1].startswith("https://cdn.example/g"):
+                live_idx[(vi, repr(u))] = int(a[1][len("https://cdn.example/g"):-3])
+            else:
+                viol.append("live evaluator: unit %r weights %r: unexpected outcome %r" % (u, ws, a))
     moved = 0
     for u in units:
         lo, hi = Fraction(0), Fraction(1)
@@ -155,6 +176,10 @@ def judge(case):
                 viol.append("unit %r, weights %r: group index %d as its own program but %d as branch %d of a routed program "
                             "(the position depends on labels / branch)" % (u, ws, idxs[0], idxs[1], vi))
             i = idxs[0]
+            li = live_idx.get((vi, repr(u)))
+            if li is not None and li != i:
+                viol.append("unit %r, weights %r: slice %d in a freshly built program but slice %d in the long-lived evaluator that "
+                            "was recompile()d step by step through %r" % (u, ws, i, li, fam[:vi + 1]))
             P = _prefix(ws)
             lo = max(lo, P[i] - TOL)
             hi = min(hi, P[i + 1] + TOL)
@@ -170,13 +195,17 @@ def judge(case):
     dc = sut.binning().deterministic_choice
     for u in units[:12]:
         key = str(u) if isinstance(u, str) else "direct:" + str(u)
-        for mode in ("as-written", "float"):
+        for mode in ("as-written", "float", "cum"):
             lo, hi = Fraction(0), Fraction(1)
             prev = None
             for vi, ws in enumerate(fam):
                 nums = [float(w) for w in ws] if mode == "float" else [float(w) if "." in w else int(w) for w in ws]
                 try:
-                    i = dc(key, list(range(len(ws))), weights=nums)
+                    if mode == "cum":
+                        from itertools import accumulate as _acc
+                        i = dc(key, list(range(len(ws))), cum_weights=list(_acc(nums)))
+                    else:
+                        i = dc(key, list(range(len(ws))), weights=nums)
                 except Exception as e:
                     viol.append("deterministic_choice(%r, weights=%r) raised %s: %s" % (key, nums, type(e).__name__, e))
                     break
